@@ -121,6 +121,15 @@ class TxIds(Family):
         snap = CTransaction.from_tx(b)
         if snap.GetTxid() != txid or snap.GetHash() != W.wtxid(m2) or hash(snap) != hash(b) or snap != b:
             raise Viol('immutable copy of a mutable transaction reports different identifiers', None, None)
+        # the snapshot is a value of its own: editing the mutable original in place (sub-object fields) afterwards
+        # changes nothing the snapshot reports
+        want_ids = (snap.GetTxid(), snap.GetHash(), hash(snap), snap.serialize())
+        b.vin[0].scriptSig = b.vin[0].scriptSig + b'\x51'
+        b.vin[0].prevout.n = (b.vin[0].prevout.n + 1) & 0xffffffff
+        if b.vout:
+            b.vout[0].nValue = 1
+        if (snap.GetTxid(), snap.GetHash(), hash(snap), snap.serialize()) != want_ids or snap.GetHash() != W.sha256d(snap.serialize()):
+            raise Viol('identifiers of an immutable copy changed (or went stale) after the mutable original was edited in place', None, None)
         return ('witness' if has else 'nowitness'), has
 
 
@@ -207,8 +216,75 @@ class BlockIds(Family):
             raise Viol('deserialised CBlock.get_header() differs from the wire header', enc[:80], blk2.get_header().serialize())
         if hash(blk2) != hash(enc) or blk2 != CBlock.deserialize(enc):
             raise Viol('block hash()/== not on the serialised form', None, None)
+        # equality is on the serialised form, also after the header hashes have been computed (cached): a block is
+        # not equal to its bare header, nor to a block with the same header but other witness data / transactions
+        hdr = blk2.get_header()
+        others = [hdr]
+        if b2['vtx']:
+            alt = dict(b2, vtx=[dict(t) for t in b2['vtx']])
+            alt['vtx'][-1] = dict(alt['vtx'][-1], wit=[[b'other']] + [[] for _ in alt['vtx'][-1]['vin'][1:]])
+            others.append(CBlock.deserialize(W.encode_block(alt)))       # same txids -> same merkle root -> same header
+            others.append(CBlock.deserialize(W.encode_block(dict(b2, vtx=b2['vtx'][:-1]))))
+        for o in others:
+            o.GetHash()
+        blk2.GetHash()
+        for o in others:
+            same = o.serialize() == blk2.serialize()
+            if (blk2 == o) != same or (o == blk2) != same or (blk2 != o) == same:
+                raise Viol('block equality after GetHash() is not equality of serialisations (%s)' % type(o).__name__, same, blk2 == o)
+            if same != (hash(o) == hash(blk2)) and same:
+                raise Viol('equal blocks hash differently', None, None)
         return 'ok', bool(case['tx'])
 
 
+class NonCanonical(Family):
+    """objects obtained by deserialising encodings that are accepted but not canonical (marker/flag followed by
+    all-empty witness stacks; non-minimal CompactSize counts): whatever object comes back, its identifiers equal the
+    double-SHA256 of *its own* serialisations and the mutable class reports the same"""
+    name = 'noncanonical_encodings'
+    nontrivial_rule = 'every case'
+
+    def cases(self, shard, tier):
+        for nin in (1, 2, 3):
+            for nout in (0, 1, 2):
+                for kind in ('empty_witness_section', 'nonminimal_vin_count', 'nonminimal_vout_count', 'nonminimal_script_len', 'canonical'):
+                    yield (nin, nout, kind)
+
+    def check(self, case):
+        from bitcoin.core import CTransaction, CMutableTransaction
+        nin, nout, kind = case
+        m = C.default_tx(nin, nout)
+        enc = W.encode_tx(m)
+        if kind == 'empty_witness_section':
+            enc = enc[:4] + b'\x00\x01' + enc[4:-4] + b'\x00' * nin + enc[-4:]
+        elif kind == 'nonminimal_vin_count':
+            enc = enc[:4] + b'\xfd' + bytes([nin, 0]) + enc[5:]
+        elif kind == 'nonminimal_vout_count':
+            pos = 5 + sum(len(W.encode_in(i)) for i in m['vin'])
+            enc = enc[:pos] + b'\xfe' + bytes([nout, 0, 0, 0]) + enc[pos + 1:]
+        elif kind == 'nonminimal_script_len':
+            pos = 5 + 36
+            enc = enc[:pos] + b'\xfd\x03\x00' + enc[pos + 1:]
+        objs = []
+        for cls in (CTransaction, CMutableTransaction):
+            try:
+                t = cls.deserialize(enc)
+            except Exception:  # noqa
+                return 'refused', True         # refusing a non-canonical encoding is fine
+            full = t.serialize()
+            stripped = t.serialize(dict(include_witness=False))
+            for rep in (0, 1):
+                if t.GetHash() != W.sha256d(full):
+                    raise Viol('%s from a %s encoding: GetHash() is not sha256d of its serialisation' % (cls.__name__, kind), W.sha256d(full), t.GetHash())
+                if t.GetTxid() != W.sha256d(stripped):
+                    raise Viol('%s from a %s encoding: GetTxid() is not sha256d of its stripped serialisation' % (cls.__name__, kind), W.sha256d(stripped), t.GetTxid())
+            if (t.GetHash() != t.GetTxid()) != t.has_witness() or hash(t) != hash(full):
+                raise Viol('%s from a %s encoding: witness hash / hash() inconsistent' % (cls.__name__, kind), None, None)
+            objs.append(t)
+        if objs[0] != objs[1] or objs[0].GetHash() != objs[1].GetHash() or hash(objs[0]) != hash(objs[1]):
+            raise Viol('immutable and mutable objects deserialised from the same %s bytes disagree' % kind, None, None)
+        return kind, True
+
+
 def families(tier):
-    return [TxIds(), SubObjects(), BlockIds()]
+    return [TxIds(), SubObjects(), BlockIds(), NonCanonical()]
